@@ -5,6 +5,9 @@
   argument `net`. Strings are byte strings.
 -/
 import BtcVerif.Proofs.Address
+import BtcVerif.Proofs.AddressSegwit
+import BtcVerif.Proofs.AddressRef
+import BtcVerif.Proofs.Bech32EncRef
 
 namespace BtcVerif.Props.C09
 open BtcVerif BtcVerif.Model BtcVerif.Model.Address
@@ -136,6 +139,248 @@ theorem wrong_payload_length_rejected (hs : Hashes) (s payload : Bytes)
     have a : ¬ rest.length = 20 := by omega
     have b : ¬ rest.length = 21 := by omega
     simp [a, b]
+
+/-! ### segwit formats (resting on the Bech32 theorems of C08) -/
+
+/-- the three supported networks with segwit addresses -/
+def segwitNets : List Network := [bitcoin, testnet, litecoin]
+
+theorem segwit_nets_ok : ∀ net ∈ segwitNets, Proofs.Address.SegwitNet net := by
+  intro net h
+  simp only [segwitNets, List.mem_cons, List.mem_nil_iff, or_false] at h
+  rcases h with h | h | h <;> subst h <;>
+    exact ⟨⟨by decide, by decide, by decide⟩, by decide⟩
+
+/-- P2WPKH / P2WSH round trip: the address made for a 20- or 32-byte program decodes (on the same
+    network, for any hash functions) to the format and to the standard witness script -/
+theorem addr_roundtrip_segwit (hs : Hashes) (net : Network) (hnet : net ∈ segwitNets) (h : Bytes)
+    (hl : h.length = 20 ∨ h.length = 32) :
+    ∃ s, makeFromHash hs net (if h.length = 20 then .p2wpkh else .p2wsh) h = .ok s ∧
+      decode hs net s = .ok (if h.length = 20 then Format.p2wpkh else Format.p2wsh,
+        Spec.Address.scriptPubKey (if h.length = 20 then .p2wpkh else .p2wsh) h) := by
+  obtain ⟨s, hmk, _, _, hdec⟩ := Proofs.Address.decode_segwit hs net (segwit_nets_ok net hnet) h hl
+  refine ⟨s, ?_, hdec⟩
+  rcases hl with hl | hl
+  · simp [makeFromHash, Gen.Guards.address_MakeFromHash_2, hl, hmk]
+  · simp [makeFromHash, Gen.Guards.address_MakeFromHash_2, hl, Proofs.Address.make_witness_eq, hmk]
+
+/-- every string accepted as P2WPKH / P2WSH is, up to case, exactly the address `MakeFromHash`
+    produces for the program in the returned (standard) script -/
+theorem decode_canonical_segwit (hs : Hashes) (net : Network) (s : Bytes) (fmt : Format) (spk : Bytes)
+    (hd : decode hs net s = .ok (fmt, spk)) (hf : fmt = .p2wpkh ∨ fmt = .p2wsh) :
+    ∃ prog, prog.length = (if fmt = .p2wsh then 32 else 20) ∧
+      spk = Spec.Address.scriptPubKey (if fmt = .p2wsh then .p2wsh else .p2wpkh) prog ∧
+      makeFromHash hs net fmt prog = .ok (Bech32.lower s) :=
+  Proofs.Address.decode_segwit_canonical hs net s fmt spk hd hf
+
+/-- `decode_canonical` for all four formats: an accepted string is the address of the hash in the
+    returned script (lower-cased for the Bech32 forms), so no second string decodes to it -/
+theorem decode_canonical (hs : Hashes) (net : Network) (s : Bytes) (fmt : Format) (spk : Bytes)
+    (hd : decode hs net s = .ok (fmt, spk)) :
+    ∃ h, makeFromHash hs net fmt h =
+      .ok (if fmt = .p2wpkh ∨ fmt = .p2wsh then Bech32.lower s else s) := by
+  cases fmt with
+  | other => exact absurd rfl (decode_format_standard hs net s _ spk hd)
+  | p2pkh =>
+    obtain ⟨h, hl, hc⟩ := decode_canonical_base58 hs net s _ spk hd (Or.inl rfl)
+    rcases hc with ⟨_, _, hm⟩ | ⟨hf, _, _⟩
+    · exact ⟨h, by simp [makeFromHash, Gen.Guards.address_MakeFromHash_2, hl, hm]⟩
+    · cases hf
+  | p2sh =>
+    obtain ⟨h, hl, hc⟩ := decode_canonical_base58 hs net s _ spk hd (Or.inr rfl)
+    rcases hc with ⟨hf, _, _⟩ | ⟨_, _, hm⟩
+    · cases hf
+    · exact ⟨h, by simp [makeFromHash, Gen.Guards.address_MakeFromHash_2, hl, hm]⟩
+  | p2wpkh =>
+    obtain ⟨prog, _, _, hm⟩ := decode_canonical_segwit hs net s _ spk hd (Or.inl rfl)
+    exact ⟨prog, by simpa using hm⟩
+  | p2wsh =>
+    obtain ⟨prog, _, _, hm⟩ := decode_canonical_segwit hs net s _ spk hd (Or.inr rfl)
+    exact ⟨prog, by simpa using hm⟩
+
+/-- the HRPs of the three segwit networks differ from each other and from Zcash's (none) -/
+theorem hrps_cross : ∀ a ∈ segwitNets, ∀ b ∈ supported, a ≠ b → a.bech32 ≠ b.bech32 := by decide
+
+/-- a segwit address made for one supported network is rejected under every other one -/
+theorem cross_network_rejected_segwit (hs : Hashes) (a b : Network) (ha : a ∈ segwitNets)
+    (hb : b ∈ supported) (hab : a ≠ b) (h : Bytes) (hl : h.length = 20 ∨ h.length = 32) :
+    ∃ s, makeP2WPKHFromHash a h = .ok s ∧ decode hs b s = .err :=
+  Proofs.Address.decode_foreign_hrp hs a b (segwit_nets_ok a ha) (hrps_cross a ha b hb hab) h hl
+
+/-! ### round trip through `Make` (public keys and scripts) -/
+
+/-- hash functions with the output lengths of HASH160, SHA-256 and the 4-byte checksum -/
+structure HashLengths (hs : Hashes) : Prop where
+  h160 : ∀ x, (hs.hash160 x).length = 20
+  s256 : ∀ x, (hs.sha256 x).length = 32
+  ck : ∀ x, (hs.cksum x).length = 4
+
+/-- `Make` followed by `Decode`, for the Base58 formats: a 33- or 65-byte public key gives a P2PKH
+    address, any script a P2SH address, and each decodes to the standard script committing to
+    HASH160 of the data -/
+theorem addr_roundtrip_make_base58 (hs : Hashes) (hl : HashLengths hs) (net : Network)
+    (hnet : net ∈ supported) (data : Bytes) :
+    (data.length = 33 ∨ data.length = 65 →
+      ∃ s, make hs net .p2pkh data = .ok s ∧
+        decode hs net s = .ok (.p2pkh, Spec.Address.scriptPubKey .p2pkh (hs.hash160 data))) ∧
+    (∃ s, make hs net .p2sh data = .ok s ∧
+        decode hs net s = .ok (.p2sh, Spec.Address.scriptPubKey .p2sh (hs.hash160 data))) := by
+  constructor
+  · intro hlen
+    refine ⟨_, ?_, addr_roundtrip_p2pkh hs hl.ck net hnet _ (hl.h160 data)⟩
+    have : ¬ (((data.length : Int) ≠ 33) ∧ ((data.length : Int) ≠ 65)) := by omega
+    simp [make, makeP2PKHFromPublicKey, Gen.Guards.address_MakeP2PKHFromPublicKey_0, this]
+  · exact ⟨_, rfl, addr_roundtrip_p2sh hs hl.ck net hnet _ (hl.h160 data)⟩
+
+/-- `Make` followed by `Decode`, for the segwit formats: a 33-byte public key gives a P2WPKH
+    address committing to HASH160 of the key, any script a P2WSH address committing to its SHA-256 -/
+theorem addr_roundtrip_make_segwit (hs : Hashes) (hl : HashLengths hs) (net : Network)
+    (hnet : net ∈ segwitNets) (data : Bytes) :
+    (data.length = 33 →
+      ∃ s, make hs net .p2wpkh data = .ok s ∧
+        decode hs net s = .ok (.p2wpkh, Spec.Address.scriptPubKey .p2wpkh (hs.hash160 data))) ∧
+    (∃ s, make hs net .p2wsh data = .ok s ∧
+        decode hs net s = .ok (.p2wsh, Spec.Address.scriptPubKey .p2wsh (hs.sha256 data))) := by
+  constructor
+  · intro hlen
+    obtain ⟨s, hmk, _, _, hdec⟩ := Proofs.Address.decode_segwit hs net (segwit_nets_ok net hnet)
+      (hs.hash160 data) (Or.inl (hl.h160 data))
+    refine ⟨s, ?_, by simpa [hl.h160 data] using hdec⟩
+    have : ¬ ((data.length : Int) ≠ 33) := by omega
+    simp [make, makeP2WPKHFromPublicKey, Gen.Guards.address_MakeP2WPKHFromPublicKey_0, this, hmk]
+  · obtain ⟨s, hmk, _, _, hdec⟩ := Proofs.Address.decode_segwit hs net (segwit_nets_ok net hnet)
+      (hs.sha256 data) (Or.inr (hl.s256 data))
+    refine ⟨s, ?_, by simpa [hl.s256 data] using hdec⟩
+    simp [make, makeP2WSHFromScript, Proofs.Address.make_witness_eq, hmk]
+
+example : HashLengths ⟨fun _ => List.replicate 20 1, fun _ => List.replicate 32 2, fun _ => [1, 2, 3, 4]⟩ :=
+  ⟨fun _ => rfl, fun _ => rfl, fun _ => rfl⟩
+
+/-! ### equality with the independent reference encoder -/
+
+/-- the published version prefixes are canonical (`EncodeVersion` writes exactly these bytes) -/
+theorem spec_versions_canonical : ∀ n ∈ Spec.Address.networks,
+    Base58Check.versionBytes (beNat n.p2pkhVersion) = n.p2pkhVersion ∧
+    Base58Check.versionBytes (beNat n.p2shVersion) = n.p2shVersion := by decide
+
+/-- P2PKH and P2SH addresses equal those of the reference encoder (published version bytes,
+    Base58Check as specified), on each of the four networks, for every hash and checksum function -/
+theorem addr_eq_reference_base58 (hs : Hashes) (n : Spec.Address.Net) (hn : n ∈ Spec.Address.networks)
+    (h : Bytes) :
+    Spec.Address.addressOfHash hs.cksum n .p2pkh h = some (makeP2PKHFromHash hs (ofSpec n) h) ∧
+    Spec.Address.addressOfHash hs.cksum n .p2sh h = some (makeP2SHFromHash hs (ofSpec n) h) := by
+  obtain ⟨h1, h2⟩ := spec_versions_canonical n hn
+  constructor
+  · simp only [Spec.Address.addressOfHash, makeP2PKHFromHash, Base58Check.encodeVersion, ofSpec, h1,
+      Proofs.Address.base58check_eq_spec]
+  · simp only [Spec.Address.addressOfHash, makeP2SHFromHash, Base58Check.encodeVersion, ofSpec, h2,
+      Proofs.Address.base58check_eq_spec]
+
+/-- P2WPKH / P2WSH addresses equal those of the reference encoder (published HRP, witness
+    version 0, `convertbits(program, 8, 5)`, BIP173 checksum) on the three segwit networks, and
+    both sides refuse on Zcash -/
+theorem addr_eq_reference_segwit (hs : Hashes) (n : Spec.Address.Net) (hn : n ∈ Spec.Address.networks)
+    (h : Bytes) (hl : h.length = 20 ∨ h.length = 32) :
+    Spec.Bech32.toOutcome (Spec.Address.addressOfHash hs.cksum n .p2wpkh h) =
+      makeP2WPKHFromHash (ofSpec n) h ∧
+    Spec.Address.addressOfHash hs.cksum n .p2wsh h = Spec.Address.addressOfHash hs.cksum n .p2wpkh h := by
+  refine ⟨?_, rfl⟩
+  have hne : h ≠ [] := by intro h0; subst h0; simp at hl
+  obtain ⟨k, hk, _, _, hcount⟩ := Proofs.Bech32.bytesToIndices_facts h hne
+  simp only [Spec.Address.networks, List.mem_cons, List.mem_nil_iff, or_false] at hn
+  rcases hn with rfl | rfl | rfl | rfl
+  · have := Proofs.Bech32.encode_eq_spec [0x62, 0x63] 0 h hne (by decide)
+      (by simp only [List.length_cons, List.length_nil]; rcases hl with hl | hl <;> omega)
+    simpa [Spec.Address.addressOfHash, Spec.Address.bitcoin, makeP2WPKHFromHash, ofSpec,
+      Gen.Guards.address_MakeP2WPKHFromHash_0, Gen.constants_WitnessVersionZero] using this
+  · have := Proofs.Bech32.encode_eq_spec [0x74, 0x62] 0 h hne (by decide)
+      (by simp only [List.length_cons, List.length_nil]; rcases hl with hl | hl <;> omega)
+    simpa [Spec.Address.addressOfHash, Spec.Address.testnet, makeP2WPKHFromHash, ofSpec,
+      Gen.Guards.address_MakeP2WPKHFromHash_0, Gen.constants_WitnessVersionZero] using this
+  · have := Proofs.Bech32.encode_eq_spec [0x6c, 0x74, 0x63] 0 h hne (by decide)
+      (by simp only [List.length_cons, List.length_nil]; rcases hl with hl | hl <;> omega)
+    simpa [Spec.Address.addressOfHash, Spec.Address.litecoin, makeP2WPKHFromHash, ofSpec,
+      Gen.Guards.address_MakeP2WPKHFromHash_0, Gen.constants_WitnessVersionZero] using this
+  · simp [Spec.Address.addressOfHash, Spec.Address.zcash, makeP2WPKHFromHash, ofSpec,
+      Gen.Guards.address_MakeP2WPKHFromHash_0, Spec.Bech32.toOutcome]
+
+/-! ### the statements of the property, for all four formats at once -/
+
+def fmtOf : Spec.Address.Kind → Format
+  | .p2pkh => .p2pkh
+  | .p2sh => .p2sh
+  | .p2wpkh => .p2wpkh
+  | .p2wsh => .p2wsh
+
+def isSegwit : Spec.Address.Kind → Bool
+  | .p2wpkh | .p2wsh => true
+  | _ => false
+
+def hashLen : Spec.Address.Kind → Nat
+  | .p2wsh => 32
+  | _ => 20
+
+theorem makeFromHash_eq (hs : Hashes) (net : Network) (k : Spec.Address.Kind) (h : Bytes)
+    (hl : h.length = hashLen k) :
+    makeFromHash hs net (fmtOf k) h =
+      match k with
+      | .p2pkh => .ok (makeP2PKHFromHash hs net h)
+      | .p2sh => .ok (makeP2SHFromHash hs net h)
+      | .p2wpkh | .p2wsh => makeP2WPKHFromHash net h := by
+  cases k <;> simp [makeFromHash, fmtOf, hashLen, Gen.Guards.address_MakeFromHash_2,
+    Proofs.Address.make_witness_eq] at hl ⊢ <;> simp [hl]
+
+/-- **addr_roundtrip**: on every supported network (for the segwit formats: every supported
+    network that has them) the address made from a hash decodes to the format and to the standard
+    scriptPubKey committing to that hash -/
+theorem addr_roundtrip (hs : Hashes) (hck : ∀ x, (hs.cksum x).length = 4) (net : Network)
+    (hnet : net ∈ supported) (k : Spec.Address.Kind) (hseg : isSegwit k = true → net ∈ segwitNets)
+    (h : Bytes) (hl : h.length = hashLen k) :
+    ∃ s, makeFromHash hs net (fmtOf k) h = .ok s ∧
+      decode hs net s = .ok (fmtOf k, Spec.Address.scriptPubKey k h) := by
+  rw [makeFromHash_eq hs net k h hl]
+  cases k with
+  | p2pkh => exact ⟨_, rfl, addr_roundtrip_p2pkh hs hck net hnet h hl⟩
+  | p2sh => exact ⟨_, rfl, addr_roundtrip_p2sh hs hck net hnet h hl⟩
+  | p2wpkh =>
+    have hl' : h.length = 20 := hl
+    obtain ⟨s, hmk, _, _, hdec⟩ := Proofs.Address.decode_segwit hs net
+      (segwit_nets_ok net (hseg rfl)) h (Or.inl hl')
+    exact ⟨s, hmk, by simpa [hl', fmtOf] using hdec⟩
+  | p2wsh =>
+    have hl' : h.length = 32 := hl
+    obtain ⟨s, hmk, _, _, hdec⟩ := Proofs.Address.decode_segwit hs net
+      (segwit_nets_ok net (hseg rfl)) h (Or.inr hl')
+    exact ⟨s, hmk, by simpa [hl', fmtOf] using hdec⟩
+
+/-- **cross_network_rejected**: an address made for one supported network is refused under every
+    other supported network, for all four formats -/
+theorem cross_network_rejected (hs : Hashes) (hck : ∀ x, (hs.cksum x).length = 4) (a b : Network)
+    (ha : a ∈ supported) (hb : b ∈ supported) (hab : a ≠ b) (k : Spec.Address.Kind)
+    (hseg : isSegwit k = true → a ∈ segwitNets) (h : Bytes) (hl : h.length = hashLen k) :
+    ∃ s, makeFromHash hs a (fmtOf k) h = .ok s ∧ decode hs b s = .err := by
+  rw [makeFromHash_eq hs a k h hl]
+  cases k with
+  | p2pkh => exact ⟨_, rfl, (cross_network_rejected_base58 hs hck a b ha hb hab h hl).1⟩
+  | p2sh => exact ⟨_, rfl, (cross_network_rejected_base58 hs hck a b ha hb hab h hl).2⟩
+  | p2wpkh => exact cross_network_rejected_segwit hs a b (hseg rfl) hb hab h (Or.inl hl)
+  | p2wsh => exact cross_network_rejected_segwit hs a b (hseg rfl) hb hab h (Or.inr hl)
+
+/-- **addr_eq_reference**: on each of the four networks and for each format, `MakeFromHash` returns
+    exactly what the independent reference encoder returns (including the refusal of the segwit
+    formats on Zcash) -/
+theorem addr_eq_reference (hs : Hashes) (n : Spec.Address.Net) (hn : n ∈ Spec.Address.networks)
+    (k : Spec.Address.Kind) (h : Bytes) (hl : h.length = hashLen k) :
+    Spec.Bech32.toOutcome (Spec.Address.addressOfHash hs.cksum n k h) =
+      makeFromHash hs (ofSpec n) (fmtOf k) h := by
+  rw [makeFromHash_eq hs (ofSpec n) k h hl]
+  cases k with
+  | p2pkh => rw [(addr_eq_reference_base58 hs n hn h).1]; rfl
+  | p2sh => rw [(addr_eq_reference_base58 hs n hn h).2]; rfl
+  | p2wpkh => exact (addr_eq_reference_segwit hs n hn h (Or.inl hl)).1
+  | p2wsh =>
+    have := addr_eq_reference_segwit hs n hn h (Or.inr hl)
+    rw [this.2]; exact this.1
 
 /-- the hypotheses are satisfiable: a concrete checksum function, hash and network -/
 example : decode ⟨id, id, fun _ => [1, 2, 3, 4]⟩ bitcoin
